@@ -662,6 +662,7 @@ class Engine:
             try:
                 res.model = {k: to_jsonable(concretize_value(model, v)) for k, v in T.inputs.items()}
                 res.model["__choices__"] = [d for d in c.decisions if not isinstance(d, bool)]
+                res.model["__symbolic_inputs__"] = bool(any(snp.has_sym(v) for v in T.inputs.values()))
             except Exception as exc:  # noqa: BLE001
                 res.detail += " (model extraction failed: %r)" % (exc,)
         if len(self.samples) < 3 and status == "proved":
